@@ -3,7 +3,7 @@ CONSTANTS
   MaxConns = 1
   MaxNonReady = 0
   MaxCreatePend = 0
-  MaxTicks = 2
+  MaxTicks = 4
   MaxStops = 1
   Timeout = 2
   ReadyCheckOnce = FALSE
@@ -15,6 +15,6 @@ CONSTANTS
   LifoQueue = FALSE
 SPECIFICATION Spec
 VIEW View
-INVARIANTS C07_CallOnlyAfterAllReady C07_Fifo C07_NoneLost C07_AllAccounted C06w_TrueMeansIdle C01_DrainReleases C01_NoCallInShutdown
+INVARIANTS C07_Fifo C07_AllAccounted C01_DrainReleases
 PROPERTIES Steps
 CHECK_DEADLOCK FALSE
